@@ -100,14 +100,21 @@ def out_of_bounds(chk):
             # for name, child in target.children.items(): the same names and the same children
             over_children = True
             cname = ("item", loop.elem, 0) if di[0] == "items" else loop.elem
+        over_targets = False
+        if not over_children and di is not None and canon(di[1]) == canon(targets) and di[0] in ("items", "keys"):
+            # the held targets are the names in both collections: walking the targets and testing membership in the children is the same set
+            # (keys() / items(): the mapping protocol a dict and a Series share - a bare `for name in targets` would walk a Series' VALUES)
+            over_children = over_targets = True
+            cname = ("item", loop.elem, 0) if di[0] == "items" else loop.elem
         c = ("sub", ("fld", TARGET, "children", 0), cname)
         w = ("fld", c, R.WEIGHT, 0)
         t = ("sub", targets, cname)
         dev = ("call", "abs", (("/", ("-", w, t), t),), ())
         tol = ("fld", SELF, "tolerance", 0)
-        held_target = sym.lit_holds(g, ("in", cname, targets), True)
+        other = ("in", cname, ("fld", TARGET, "children", 0)) if over_targets else ("in", cname, targets)
+        held_target = sym.lit_holds(g, other, True)
         exceeded = sym.lit_holds(g, canon(("cmp", ">", dev, tol)), True)
-        allowed = sym.sat([(("in", cname, targets), True), (canon(("cmp", ">", dev, tol)), True), (("in", ("str", "weights"), temp), True)])
+        allowed = sym.sat([(other, True), (canon(("cmp", ">", dev, tol)), True), (("in", ("str", "weights"), temp), True)])
         extra = [l for l in plain(e.guard) if not sym.lit_holds(allowed, l[0], l[1])]  # any further condition exempts some held target from the test
         ok = over_children and held_target and exceeded and canon(e.value) == canon(sym.TRUE) and not extra
         chk.ob("C13.R5", ok, ALGOS, host, "deviation-rule", "True exactly when some held target's weight deviates from its target by more than the tolerance, relative to the target (either sign)",
@@ -116,8 +123,9 @@ def out_of_bounds(chk):
         reads = [p for p in S.events if p.kind == "propread" and p.name == "weight" and p.seq < e.seq and p.loops == e.loops]
         chk.ob("C13.R5", bool(reads), ALGOS, host, "deviation-reads-fresh-weight", "the current weight is read through the refreshing accessor", where=e.where)
     chk.ob("C13.R5", bool(inloop), ALGOS, host, "deviation-rule-present", "the per-child deviation test must be present", where=fi.where)
-    last = rets[-1] if rets else None
-    chk.ob("C13.R5", last is not None and canon(last.value) == canon(sym.FALSE), ALGOS, host, "in-bounds-false", "False when nothing deviates", where=fi.where)
+    # after the loop over the held targets: False (the cash branch, a known defect, may follow or precede that return)
+    after = [r_ for r_ in rets if not r_.loops and sym.lit_holds(sym.sat(r_.guard), ("in", ("str", "weights"), temp), True)]
+    chk.ob("C13.R5", any(canon(r_.value) == canon(sym.FALSE) for r_ in after), ALGOS, host, "in-bounds-false", "False when nothing deviates", where=fi.where)
     # T-PROTO: names bound to temp['weights'] are used only through the mapping protocol (dict and Series both have it)
     seen = set()
     for e in S.events:
